@@ -29,11 +29,33 @@ add('C16', 'exploration', 'exhaustive range + Hypothesis integers against the WB
     'arbitrary magnitude, threshold neighbours, ordered pairs and the two-score form.',
     'Trusts vf/model/imps.py as a transcription of the WBF scale.', '5/C16')
 
+add('C01', 'exploration', 'bounded-exhaustive + Hypothesis stateful/random walks against an independent auction model',
+    'hypothesis-inprocess',
+    'All legal call sequences to depth 3/4 are enumerated and random walks reach the 319-call auction; at every '
+    'prefix all 38 calls are offered (illegal ones live, legal ones on deep copies) and every observable is '
+    'compared with a model written from the Laws. Sampling beyond depth 4: no counterexample among N walks.',
+    'Trusts vf/model/auction.py; deepcopy of BiddingPhase yields an independent equal object.', '5/C01')
+add('C02', 'exploration', 'shape-exhaustive + Hypothesis walks: rotation and exact end against the model',
+    'hypothesis-inprocess',
+    'Every auction shape over {Pass, cheapest bid, same-strain bid, X, XX} to 8/11 calls from each dealer is '
+    'enumerated, plus all legal sequences to depth 3/4 and random walks; turn, per-seat lists, has_done and the '
+    'FINISHED/ONGOING value are compared at every prefix, and all 38 calls are offered after the end.',
+    'Trusts vf/model/auction.py.', '5/C02')
+add('C03', 'exploration', 'shape-exhaustive + Hypothesis complete auctions: contract/declarer against the model',
+    'hypothesis-inprocess',
+    'Complete auctions with small strain palettes (both partners / both sides naming the final strain, superseded '
+    'doubles) are generated and shape-enumerated; contract() is compared at every prefix and at the end.',
+    'Trusts vf/model/auction.py; doubling compared as status, not raw flags.', '5/C03')
+
 NOT_APPLICABLE = []
 
 ENGINES = [
     {'name': 'enumeration', 'path': 'vf/common/runner.py', 'serves_properties': ['C07', 'C15', 'C16'],
      'kind_free_text': 'complete enumeration of finite domains, sharded over 16 processes'},
+    {'name': 'hypothesis-inprocess', 'path': 'vf/common/core.py',
+     'serves_properties': ['C01', 'C02', 'C03', 'C04', 'C05', 'C06', 'C12', 'C14', 'C17', 'C18', 'C19'],
+     'kind_free_text': 'Hypothesis 6.168 (given + RuleBasedStateMachine), seeded from VERIF_SEED, 16 shard processes, '
+                       'oracles = independent reference models in vf/model'},
 ]
 
 
